@@ -25,6 +25,10 @@ def scenarios_for(prop, tier, rng):
         cases, r = tlc_cases("hist", 3 if thorough else 2, f"{prop}-gen-hist"); gens.append(r)
         cases = [list(h) for h in cases]
         rng.shuffle(cases)
+        # histories through the corners always come first: a policy that is managed but evaluates to nothing
+        # in both families, and one that stops being managed
+        corner = lambda h: any(st["marked"] and not st["v4"] and not st["v6"] for st in h) or not h[-1]["marked"]
+        cases = [h for h in cases if corner(h)] + [h for h in cases if not corner(h)]
         if thorough and len(cases) > 6000:
             cases = cases[:6000]
         if not thorough:
@@ -88,6 +92,15 @@ def design(prop, tier):
                 raise ToolError(f"AgentRun.tla no longer reproduces the repaired C01 defect (see {n['out']})")
             n["violated"] = None; n["name"] += " (expected InvReadBack violation: seen)"
             res.append(n)
+        if prop == "C01":
+            # the whole system (daemon loop + run + router, inputs and failures changing finitely often):
+            # safety of the committed configuration and convergence as a liveness property under fairness
+            b = 2 if tier == "thorough" else 1
+            y = run_tlc("System", f'SPECIFICATION SSpec\nCONSTANTS PNames = {{"p", "q"}} A4 = {{"a", "b"}} A6 = {{"c"}} FixEmptyTerm = TRUE '
+                        f'SkipNoReject = FALSE Period = 45 MaxChanges = {b} MaxFaults = {b}\n'
+                        'INVARIANTS NeverFailOpen AlwaysReadable InstalledIsLastApplied DelaysOk\nPROPERTIES OnlyCommitChanges EventuallyConverges\n'
+                        'CHECK_DEADLOCK FALSE\n', f"{prop}-system", workers=8, timeout=1500)
+            res.append(y)
         if prop == "C02":
             # ... and the C02 defect: an installed policy without trailing reject was skipped by the reader and merged into
             n = run_tlc("MCAgentRun", f"SPECIFICATION SpecData\n{consts} FixEmptyTerm = TRUE SkipNoReject = TRUE\nINVARIANTS InvUpdateSafe\nCHECK_DEADLOCK FALSE\n",
@@ -166,7 +179,7 @@ def check(prop, tier):
            "samples": [sample], "agent_runs": stats.get("runs"), "agent_runs_reporting_success": stats.get("okruns"),
            "load_configuration_requests_judged": stats.get("loads"), "commits_seen": stats.get("commits"),
            "evaluations": stats.get("runs", 0), "distinct_nontrivial": stats.get("loads", 0),
-           "design_checks": [{"name": d["name"], "module": "MCAgentRun", "generated": d["generated"], "distinct": d["distinct"],
+           "design_checks": [{"name": d["name"], "module": d["module"], "generated": d["generated"], "distinct": d["distinct"],
                               "wall_s": d["wall_s"]} for d in designs],
            "tlc_generators": [{"name": g["name"], "wall_s": g["wall_s"]} for g in gens],
            "exhaustive": tier == "thorough", "known_findings_reproduced": verdict.known_hits,
